@@ -19,7 +19,7 @@ CHECKS = {
   "DESIGN.md section 5 C02"),
  "C05": ("exploration",
   "runtime monitoring: recording backend reader and reply accounting over exhaustive chunk compositions x segmentations, bait payloads for refused BDATs",
-  "Drives the real server with every composition of short hostile messages into up to four BDAT chunks (zero-size chunks and both LAST placements included), seeded chunkings of longer binary messages, four segmentation disciplines and five refusal states whose chunks carry bait commands; compares the octets, terminal error and call count seen by the recording backend with what was sent, counts replies and checks that marker commands are executed in place.",
+  "Drives the real server with every composition of short hostile messages into up to four BDAT chunks (zero-size chunks and both LAST placements included), seeded chunkings of longer binary messages, four segmentation disciplines and five refusal states whose chunks carry bait commands; compares the octets, terminal error and call count seen by the recording backend with what was sent, counts replies and checks that marker commands (NOOP or empty lines) are executed in place; chunk sizes are also written zero-padded; chunks overtaken by the read timeout (virtual deadline) and chunks the backend gives up on while a binary remainder is still on the wire must not leak into the command stream.",
   "Known finding C05:linelimit-readahead (KNOWN_FINDINGS.txt) is matched narrowly by precondition+symptom; BDAT with unparsable size not judged.",
   "DESIGN.md section 5 C05"),
  "C06": ("exploration",
@@ -34,7 +34,7 @@ CHECKS = {
   "DESIGN.md section 5 C07"),
  "C08": ("fault_enumeration",
   "runtime monitoring: session-lifecycle automaton over the backend event log under cut-point enumeration and server-initiated closes with buffered suffixes; goroutine-table leak check",
-  "Every octet offset of 30 conversations (incl. AUTH exchanges) and of a STARTTLS conversation (plaintext part and inner TLS part) is used as a disconnect point with three failure kinds; server-initiated close reasons (QUIT, error threshold with several kinds of invalid line, over-long line, idle timeout via a virtual deadline also inside AUTH and DATA, backend panic inside Mail / NewSession / Rcpt / Data / Reset) are combined with every command suffix of length <=2 already buffered behind the closing command, with ReadTimeout 0 and set, SMTP and LMTP, at default GOMAXPROCS and 1. A session-lifecycle automaton over the recorded callbacks checks exactly-one Logout per session, no callback after Logout, nothing executed after the closing reply or after a 421, no more Mail/Rcpt/NewSession callbacks than completely received (CRLF-terminated) commands of that kind at every cut; the connection's own Close is overlapped with Server.Close / Conn.Close while parked in each callback kind; at the end of the run no goroutine with a go-smtp frame may remain.",
+  "Every octet offset of 30 conversations (incl. AUTH exchanges) and of a STARTTLS conversation (plaintext part and inner TLS part) is used as a disconnect point with three failure kinds; server-initiated close reasons (QUIT, error threshold with several kinds of invalid line, over-long line, idle timeout via a virtual deadline also inside AUTH and DATA, backend panic inside Mail / NewSession / Rcpt / Data (early and after the whole message was read, via DATA and BDAT LAST) / Reset, Conn.Reject called from NewSession) are combined with every command suffix of length <=2 already buffered behind the closing command, with ReadTimeout 0 and set, SMTP and LMTP, at default GOMAXPROCS and 1. A session-lifecycle automaton over the recorded callbacks checks exactly-one Logout per session, no callback after Logout, nothing executed after the closing reply or after a 421, no more Mail/Rcpt/NewSession callbacks than completely received (CRLF-terminated) commands of that kind at every cut; the connection's own Close is overlapped with Server.Close / Conn.Close while parked in each callback kind; at the end of the run no goroutine with a go-smtp frame may remain.",
   "Known finding C08:data-begins-after-logout (zero-octet transfer aborted before the delivery goroutine entered Data) is matched narrowly; leak check is global per run, not per case.",
   "DESIGN.md section 5 C08"),
  "C03": ("exploration",
@@ -44,12 +44,12 @@ CHECKS = {
   "DESIGN.md section 5 C03"),
  "C04": ("exploration",
   "runtime monitoring: strict RFC 5321/2034 reply parser, per-command reply accounting, token attribution, differential execution across sending disciplines, gate-controlled overlap matrix",
-  "The history workload is executed lock-step (per-command arity, syntax, enhanced-code class, unique-token attribution of every backend verdict) and again as pipelined groups and randomly re-cut segments whose reply-code and callback sequences must equal the lock-step run; an overlap matrix enumerates all orders in which a parked delivery of an aborted chunked transaction, the completion of the next transaction and its delivery can happen (gates in the harness backend, no sleeps); control octets are injected at eight reply-echo sites.",
+  "The history workload is executed lock-step (per-command arity, syntax, enhanced-code class, unique-token attribution of every backend verdict) and again as pipelined groups and randomly re-cut segments whose reply-code and callback sequences must equal the lock-step run; an overlap matrix enumerates all orders in which a parked delivery of an aborted chunked transaction, the completion of the next transaction and its delivery can happen (gates in the harness backend, no sleeps); control octets are injected at eight reply-echo sites; clock cases let a long (virtual) time pass before each step of a plaintext / implicit-TLS / STARTTLS conversation and fire the deadline of every direction whose timeout is not configured: every step must still be answered.",
   "Reply wording and codes are judged only where the statement fixes them; 8-bit reply text not judged.",
   "DESIGN.md section 5 C04"),
  "C19": ("exploration",
   "runtime monitoring: ErrorLog tap for recovered panics, transport consumption counter, reply parser and backend log under boundary-length lines, endless lines, exhaustive short byte strings and seeded token soups",
-  "Lines of total length limit-2..limit+3 and 3*limit for three limits are placed at nine positions of a conversation (first line, later, MAIL line, inside an AUTH exchange, after DATA, after a non-LAST chunk, after a refused BDAT, after a chunk the backend failed, after an over-limit chunk), in one and in two segments, with Server.Debug unset and set; endless LF-free input is fed in 512-octet segments while the transport counts what the server consumed before closing; every string of bounded length over nine hostile octets and seeded token soups (a third of them MAIL/RCPT lines with a valid path followed by a soup of parameter fragments, every extension enabled) are sent as command lines in five session states; error floods of 3..6 invalid commands in three mixes. A recovered panic in Server.ErrorLog, a crash of the child process, a wrong 500/close decision, unbounded consumption or a connection surviving the fourth invalid command is a violation.",
+  "Lines of total length limit-2..limit+3 and 3*limit for five limits (32, 64, 2000, 5000, 8192) are placed at nine positions of a conversation (first line, later, MAIL line, inside an AUTH exchange, after DATA, after a non-LAST chunk, after a refused BDAT, after a chunk the backend failed, after an over-limit chunk), in one segment and in two (cut in the middle, after the first octet, before CRLF, before LF), with Server.Debug unset and set; endless LF-free input is fed in 512-octet segments while the transport counts what the server consumed before closing; every string of bounded length over nine hostile octets and seeded token soups (a third of them MAIL/RCPT lines with a valid path followed by a soup of parameter fragments, every extension enabled) are sent as command lines in seven session states (incl. greeting refused by the backend and greeting of the wrong flavour); error floods of 3..6 invalid commands in three mixes. A recovered panic in Server.ErrorLog, a crash of the child process, a wrong 500/close decision, unbounded consumption or a connection surviving the fourth invalid command is a violation.",
   "Lines of exactly limit+1 octets are not judged; BDAT payload is sent in its own segment here because payload read ahead with its command line is the C05 known finding.",
   "DESIGN.md section 5 C19"),
  "C09": ("exploration",
@@ -104,7 +104,7 @@ CHECKS = {
   "DESIGN.md section 5 C15"),
  "C20": ("exploration",
   "runtime monitoring: Go race detector over enumerated event orders and close/callback overlaps; porcupine linearizability check of concurrent Close/Shutdown histories; termination and goroutine-table checks; scripted Accept errors",
-  "Under the race-detector build (GOMAXPROCS default and 1; also 4 and a non-race pass in thorough): all orders of up to three (thorough: four) harness events from {delivery completes, RSET, next transaction, QUIT, disconnect, Server.Close, Server.Shutdown} against a parked BDAT delivery, a parked LMTP DATA delivery, a parked LMTP BDAT delivery and a parked BDAT delivery of an LMTP server over a plain Session; connections idle, in their implicit-TLS handshake or stalled inside a STARTTLS handshake when Close / Shutdown fires; Server.Close overlapping each callback kind parked on a gate, and called directly from callbacks; groups of 2..8 barrier-released Close/Shutdown callers on one or two listeners (one of them failing to close) whose recorded call/return history is checked by porcupine against the sequential model 'first caller gets the listener result, later ones ErrServerClosed'; all sequences of up to five temporary/permanent Accept errors; replays of C03/C05/C13 cases for race coverage. Race reports are parsed, de-duplicated by racing statement pair and are violations; Serve/handlers/deliveries must terminate and no library goroutine may remain at the end.",
+  "Under the race-detector build (GOMAXPROCS default and 1; also 4 and a non-race pass in thorough): all orders of up to three (thorough: four) harness events from {delivery completes, RSET, next transaction, QUIT, disconnect, Server.Close, Server.Shutdown} against a parked BDAT delivery, a parked LMTP DATA delivery, a parked LMTP BDAT delivery and a parked BDAT delivery of an LMTP server over a plain Session; connections idle, in their implicit-TLS handshake, stalled inside a STARTTLS handshake or only just handed out by Accept when Close / Shutdown fires; Shutdown with a context that has already expired; Server.Close overlapping each callback kind parked on a gate, and called directly from callbacks; groups of 2..8 barrier-released Close/Shutdown callers on one or two listeners (one of them failing to close) whose recorded call/return history is checked by porcupine against the sequential model 'first caller gets the listener result, later ones ErrServerClosed'; all sequences of up to five temporary/permanent Accept errors; replays of C03/C05/C13 cases for race coverage. Race reports are parsed, de-duplicated by racing statement pair and are violations; Serve/handlers/deliveries must terminate and no library goroutine may remain at the end.",
   "The race detector sees only executed accesses; interleavings are diversified by enumerated orders, gates, yields and GOMAXPROCS, not exhausted.",
   "DESIGN.md section 5 C20"),
 }
